@@ -1,10 +1,9 @@
 //! C05: the writer's R-tree bytes and the reader's search, driven directly through
 //! the cfg(bigtools_verif) hooks.
-use crate::sexp::{a, S};
-use crate::sl;
+use bt_harness::{a, sl, S};
 use bigtools::verif_hooks::{rtree_index_bytes, rtree_search};
 
-pub fn run(c: &S) -> S {
+fn run(c: &S) -> S {
     let b = c.at(0).u32();
     let ips = c.at(1).u32();
     let pos = c.at(2).u64();
@@ -33,3 +32,4 @@ pub fn run(c: &S) -> S {
         .collect();
     sl![a(0), a(levels as u64), S::from_bytes(&bytes), S::L(answers)]
 }
+fn main() { bt_harness::run_cases(run); }
